@@ -589,14 +589,24 @@ package protocol
 
 // SetContentLength: a response that must not carry a body keeps its header untouched; otherwise the
 // numeric field is the argument and, for a known length, the text is AppendUint's rendering of it.
+// sclDel / sclSet: a known length removes every Transfer-Encoding field (the two framings must never be announced
+// together), an unknown one installs exactly the matching Transfer-Encoding value.
+//@ ghost var sclDel bool
+//@ ghost var sclSet bool
 //@ func ResponseHeader.SetContentLength(h, contentLength)
 //@   props C04
 //@   nosafety
-//@   modifies *
+//@   modifies *, sclDel, sclSet
 //@   top-ensures old(noBodyStatus(h.statusCode)) ==> h.contentLength == old(h.contentLength) && sameSlice(h.contentLengthBytes, old(h.contentLengthBytes))
 //@   top-ensures !old(noBodyStatus(h.statusCode)) ==> h.contentLength == contentLength
 //@   top-ensures !old(noBodyStatus(h.statusCode)) && contentLength < 0 ==> len(h.contentLengthBytes) == 0
 //@   assert before AppendUint: arg1 == contentLength && len(arg0) == 0
+//@   ghostset-at-entry sclDel = false
+//@   ghostset-at-entry sclSet = false
+//@   ghostset after delAllArgsBytes: sclDel = sclDel || sameSlice(arg1, bytestr.StrTransferEncoding)
+//@   ghostset after setArgBytes: sclSet = sameSlice(arg1, bytestr.StrTransferEncoding) && ((contentLength == -2 && sameSlice(arg2, bytestr.StrIdentity)) || (contentLength != -2 && sameSlice(arg2, bytestr.StrChunked)))
+//@   top-ensures !old(noBodyStatus(h.statusCode)) && contentLength >= 0 ==> sclDel
+//@   top-ensures !old(noBodyStatus(h.statusCode)) && contentLength < 0 ==> sclSet
 
 // Header argument lists (slices of argsKV): used at call sites with a frame only; not verified
 // against their bodies (copy of struct elements is outside the modelled subset) - listed as assumed.
